@@ -1161,8 +1161,12 @@ struct WorkShare
     unsigned long long total_chunks_handed;
     int singles;                    // GOMP_single_start arrivals
     unsigned long long static_pos[MAXT]; // per member: next static chunk index
+    bool from_start;                // nested only: entered through a *_start call (popped by the matching *_end)
 };
 static std::vector<WorkShare> g_ws;
+// Work-shares of NESTED regions (teams of one, run inline by the encountering member) are private to that member:
+// while it is preempted inside its nested loop another member of the outer team may open a nested loop of its own.
+static std::vector<WorkShare> g_nested_ws[MAXT + 1];
 static bool g_ws_preinit = false;
 
 static void run_region(void (*fn)(void *), void *data, int T, int requested)
@@ -1388,6 +1392,8 @@ void begin_op(const OpSim &cfg)
     g_stats = OpStats();
     g_stats.sched_hash = 0xcbf29ce484222325ULL;
     g_op_active = true;
+    for (auto &stk : g_nested_ws)
+        stk.clear();
     g_sched_rng.reseed(cfg.sched_seed);
     g_team_rng.reseed(derive_seed(cfg.sched_seed, 0x7ea3));
     g_region_idx = -1;
@@ -1750,8 +1756,24 @@ static inline Member *ws_member() { return g_in_region && g_cur ? g_cur : &g_orp
 static inline int ws_team() { return g_in_region && g_nest == 0 ? g_T : 1; }
 static inline int ws_index() { return g_in_region && g_nest == 0 && g_cur ? g_cur->idx : 0; }
 
+static inline bool ws_nested() { return g_in_region && g_nest > 0; }
+static inline std::vector<WorkShare> &ws_nested_stack() { return g_nested_ws[g_cur ? g_cur->idx : MAXT]; }
 static WorkShare &ws_enter(int kind, bool up, unsigned long long start, unsigned long long end, unsigned long long incr, unsigned long long chunk)
 {
+    if (ws_nested())
+    {
+        WorkShare w;
+        memset(&w, 0, sizeof w);
+        w.kind = kind;
+        w.up = up;
+        w.next = start;
+        w.end = end;
+        w.incr = incr ? incr : 1;
+        w.chunk = chunk ? chunk : 1;
+        w.from_start = true;
+        ws_nested_stack().push_back(w);
+        return ws_nested_stack().back();
+    }
     Member *m = ws_member();
     if (!g_in_region)
         g_ws.clear(), m->ws_count = 0;
@@ -1786,9 +1808,11 @@ static bool ws_next(unsigned long long *s, unsigned long long *e)
     if (g_in_region && g_nest == 0 && g_T > 1)
         step();
     Member *m = ws_member();
-    if (m->ws_cur < 0 || m->ws_cur >= (int)g_ws.size())
+    if (ws_nested() && ws_nested_stack().empty())
         return false;
-    WorkShare &w = g_ws[m->ws_cur];
+    if (!ws_nested() && (m->ws_cur < 0 || m->ws_cur >= (int)g_ws.size()))
+        return false;
+    WorkShare &w = ws_nested() ? ws_nested_stack().back() : g_ws[m->ws_cur];
     int T = ws_team(), me = ws_index();
     unsigned long long rem = ws_remaining(w);
     if (w.kind == 0)
@@ -1901,6 +1925,16 @@ static void parallel_loop(void (*fn)(void *), void *data, unsigned num_threads, 
     w.end = (unsigned long long)end + OFF;
     w.incr = (unsigned long long)(up ? incr : -incr);
     w.chunk = chunk > 0 ? (unsigned long long)chunk : (kind == 0 ? 0 : 1); // static without a chunk: one block per member, sized when the team is known
+    if (g_in_region)
+    {
+        // nested: a team of one; the work-share is private to the encountering member
+        std::vector<WorkShare> &stk = ws_nested_stack();
+        size_t depth = stk.size();
+        stk.push_back(w);
+        GOMP_parallel(fn, data, num_threads, flags);
+        ws_nested_stack().resize(depth);
+        return;
+    }
     g_ws.clear();
     g_ws.push_back(w);
     g_ws_preinit = true;
@@ -1949,10 +1983,20 @@ extern "C"
     RUNTIME_FAMILY(nonmonotonic_runtime)
     RUNTIME_FAMILY(maybe_nonmonotonic_runtime)
 
-    void GOMP_loop_end(void) { GOMP_barrier(); }
-    void GOMP_loop_end_nowait(void) {}
+    static inline void ws_nested_end()
+    {
+        if (ws_nested() && !ws_nested_stack().empty() && ws_nested_stack().back().from_start)
+            ws_nested_stack().pop_back();
+    }
+    void GOMP_loop_end(void)
+    {
+        ws_nested_end();
+        GOMP_barrier();
+    }
+    void GOMP_loop_end_nowait(void) { ws_nested_end(); }
     bool GOMP_loop_end_cancel(void)
     {
+        ws_nested_end();
         GOMP_barrier();
         return false;
     }
@@ -2222,10 +2266,15 @@ extern "C"
         ws_enter(1, true, 1, (unsigned long long)count + 1, 1, 1);
         return GOMP_sections_next();
     }
-    void GOMP_sections_end(void) { GOMP_barrier(); }
-    void GOMP_sections_end_nowait(void) {}
+    void GOMP_sections_end(void)
+    {
+        ws_nested_end();
+        GOMP_barrier();
+    }
+    void GOMP_sections_end_nowait(void) { ws_nested_end(); }
     bool GOMP_sections_end_cancel(void)
     {
+        ws_nested_end();
         GOMP_barrier();
         return false;
     }
@@ -2239,6 +2288,15 @@ extern "C"
         w.end = (unsigned long long)count + 1;
         w.incr = 1;
         w.chunk = 1;
+        if (g_in_region)
+        {
+            std::vector<WorkShare> &stk = ws_nested_stack();
+            size_t depth = stk.size();
+            stk.push_back(w);
+            GOMP_parallel(fn, data, num_threads, flags);
+            ws_nested_stack().resize(depth);
+            return;
+        }
         g_ws.clear();
         g_ws.push_back(w);
         g_ws_preinit = true;
